@@ -255,6 +255,7 @@ let run_case_b variant line isegs =
   let parts = split_segs_ref line in
   let cfg = tokens (List.hd parts) in
   let (st0, queue, declared) = parse_cfg_b (List.tl cfg) in
+  if not (cfg_valid st0.st_reg.pools) then "rejected-config" else
   let gates : (string, gate) Hashtbl.t = Hashtbl.create 8 in
   let gate k = match Hashtbl.find_opt gates k with Some g -> g | None -> let g = new_gate () in Hashtbl.add gates k g; g in
   let vq : string list ref = ref [] in
@@ -467,6 +468,9 @@ let () =
       let cfg_toks = tokens (List.hd parts) in
       let cfg_toks = (match cfg_toks with "NS" :: r -> same_names := true; r | l -> same_names := false; l) in
       let st0 = parse_cfg cfg_toks in
+      if not (cfg_valid st0.st_reg.pools) then
+        print_endline (if !benign_mode then "benign=1 safe=1 steps=0" else "rejected-config")
+      else
       let isegs = match impls with
         | Some l -> (match List.nth_opt l idx with Some il -> Array.of_list (split_segs il) | None -> [||])
         | None -> [||] in
